@@ -670,18 +670,27 @@ def foreachPaths : List (String × List Notif) := [
 
 def foreachEdges : List (String × String) := PluginStep.LifecycleSpec.edgesOf foreachStages
 
-/-- The one transition the foreach provider makes although its lifecycle does not declare it: closed while waiting
-    for the items, `runOnInput` calls `closedEarly`, which moves the step `execute -> closed`; `closed` is only declared
-    as a next stage of `enabling`. -/
-def foreachUndeclaredEdges : List (String × String) := [("execute", "closed")]
-
-/-- strict acceptor: the lifecycle exactly as declared -/
+/-- strict acceptor: the lifecycle exactly as declared (regenerated from the source) -/
 def foreachAccepts (tr : List Notif) : Bool :=
   PluginStep.LifecycleSpec.accepts foreachStages foreachEdges [] tr
 
-/-- acceptor with the transition relation widened by `foreachUndeclaredEdges` -/
-def foreachAcceptsRelaxed (tr : List Notif) : Bool :=
-  PluginStep.LifecycleSpec.accepts foreachStages (foreachEdges ++ foreachUndeclaredEdges) [] tr
+/-- The foreach lifecycle table as it was BEFORE `closed` was declared as a next stage of `execute` (a literal copy of
+    the regenerated table of that time).  Kept to document the finding `execute -> closed`: closed while waiting for the
+    items, `runOnInput` calls `closedEarly`, which moves the step `execute -> closed`, and `closed` was only declared as a
+    next stage of `enabling`. -/
+def foreachStagesBeforeExecuteClosed : List StageRow := [
+  { id := "execute", inputFields := ["items", "parallelism", "wait_for"], next := [("failed", Arca.Model.Dep.cand), ("outputs", Arca.Model.Dep.and)], fatal := false, hasSchema := true, outputs := [] },
+  { id := "outputs", inputFields := [], next := [], fatal := false, hasSchema := false, outputs := ["success"] },
+  { id := "failed", inputFields := [], next := [], fatal := true, hasSchema := false, outputs := ["error"] },
+  { id := "enabling", inputFields := ["enabled"], next := [("closed", Arca.Model.Dep.cand), ("disabled", Arca.Model.Dep.and), ("execute", Arca.Model.Dep.and)], fatal := false, hasSchema := true, outputs := ["resolved"] },
+  { id := "disabled", inputFields := [], next := [], fatal := false, hasSchema := false, outputs := ["output"] },
+  { id := "closed", inputFields := [], next := [], fatal := false, hasSchema := false, outputs := ["result"] }
+]
+
+/-- the strict acceptor over that old table -/
+def foreachAcceptsBeforeExecuteClosed (tr : List Notif) : Bool :=
+  PluginStep.LifecycleSpec.accepts foreachStagesBeforeExecuteClosed
+    (PluginStep.LifecycleSpec.edgesOf foreachStagesBeforeExecuteClosed) [] tr
 
 /-! ## Synchronisation skeleton of the foreach provider -/
 
